@@ -855,7 +855,14 @@ package zygo
 //@ C13 ensures becomes-current: old(lex.stream == nil && len(lex.next) == 0) ==> lex.stream == s && len(lex.next) == 0
 //@ func (*Parser).ResetAddNewInput
 //@ requires s != nil
-//@ C13 ensures text-is-current: p.lexer.stream == s && len(p.lexer.next) == 0
+//@ C05,C13 ensures text-is-current: p.lexer.stream == s && len(p.lexer.next) == 0
+// a parse still suspended on the previous (unfinished) text is unwound BEFORE the lexer is reset
+// and the new text installed: unwinding lets the dying parse run on, and it would eat the new tokens
+//@ C05,C13 assert suspended-parse-is-unwound-before-the-lexer-is-reset @before call Reset[0]: p.stop == nil
+//@ C05,C13 assert suspended-parse-is-unwound-before-new-input @before call AddNextStream[0]: p.stop == nil
+// the reply accumulator (expressions parsed so far, re-sent on every pause) is replaced only by an
+// explicit reset; a parse that finishes and is started again on more input keeps reporting into it
+//@ writers C13 Parser | sendMe | (*Zlisp).NewParser, (*Parser).Reset, (*Parser).ResetAddNewInput
 //@ func (*Zlisp).LoadStream
 //@ requires stream != nil
 //@ ghost terminatorQueued := false @entry
